@@ -57,7 +57,7 @@ def mutate(data, rng):
 
 CONF_MUT = ['directories.tokendir = \n', 'objectstore.backend = db\n', 'objectstore.backend = \x00\x01\n', 'log.level = \n', 'slots.removable = maybe\n',
             'slots.mechanisms = CKM_NOPE,,,-\n', 'objectstore.umask = 99999999999999999999\n', '=\n', 'a' * 5000 + '\n', 'slots.mechanisms = ' + 'CKM_AES_CBC,' * 400 + '\n',
-            'directories.tokendir = /nonexistent/dir\n', '\xff\xfe\x00garbage\n', 'objectstore.umask = -1\n', 'library.reset_on_fork = 2\n']
+            'directories.tokendir = /nonexistent/dir\n', 'directories.tokendir = /etc/hostname\n', 'directories.tokendir = /tmp/' + 'd' * 300 + '\n', 'directories.tokendir = /proc/self/mem/x\n', '\xff\xfe\x00garbage\n', 'objectstore.umask = -1\n', 'library.reset_on_fork = 2\n']
 
 
 def recover(lib, p11drv, d, env, pred, what, stats):
